@@ -1754,3 +1754,447 @@ Proof.
   intros c ops s. pose proof (reachable_inv c ops) as [_ S _]. fold s in S.
   destruct (ws s); auto.
 Qed.
+
+(* ======================================================================================== *)
+(* C06 (worker level): stop handling                                                         *)
+(* ======================================================================================== *)
+
+Lemma poll_ret : forall c s s1 o, pstep c true s = (s1, o, NRet) -> poll c s = (s1, o).
+Proof. intros c s s1 o H. unfold poll, fuel_of. cbn [piter]. now rewrite H. Qed.
+
+Lemma total_val : forall c s, counter s <> 0%Z -> total c s = TVal (counter s - 1).
+Proof. intros c s H. unfold total. apply Z.eqb_neq in H. now rewrite H. Qed.
+
+(* outside the send/inc gap `total()` is the number of connections queued or in progress *)
+Theorem total_is_inflight : forall c s, Inv c s -> finished s = false -> gap s = false ->
+  total c s = TVal (Z.of_nat (length (cq s)) + Z.of_nat (length (inprog s))).
+Proof.
+  intros c s [_ _ C] F G. specialize (C F). rewrite G in C. rewrite total_val by lia. f_equal. lia.
+Qed.
+
+(* the value a guard drop sees is >= 1: `fetch_sub(1) - 1` cannot underflow *)
+Theorem finish_pre_positive : forall c s cid, Inv c s -> finished s = false ->
+  mem_nat cid (inprog s) = true -> (1 <= counter s)%Z.
+Proof.
+  intros c s cid [_ _ C] F M. specialize (C F). apply remove_nat_length in M.
+  destruct (gap s); lia.
+Qed.
+
+(* --- forced / idle: the very next poll acknowledges and resolves, nothing is awaited ------ *)
+Theorem stop_forced : forall c s sid rest,
+  sq s = (false, sid) :: rest -> counter s <> 0%Z -> counter s <> 1%Z ->
+  poll c s = (set_ws (set_svcs (set_sq s rest) (shutdown_svcs true (svcs s))) WDone,
+              StopAck sid false :: Done
+              :: drop_obs (set_svcs (set_sq s rest) (shutdown_svcs true (svcs s)))).
+Proof.
+  intros c s sid rest Esq H0 H1. apply poll_ret. unfold pstep, stop_handler. rewrite Esq.
+  rewrite total_val by (sel; exact H0). sel.
+  destruct (counter s - 1 =? 0)%Z eqn:E; [apply Z.eqb_eq in E; lia|]. reflexivity.
+Qed.
+
+Theorem stop_idle : forall c s g sid rest,
+  sq s = (g, sid) :: rest -> counter s = 1%Z ->
+  poll c s = (set_ws (set_sq s rest) WDone, StopAck sid true :: Done :: drop_obs (set_sq s rest)).
+Proof.
+  intros c s g sid rest Esq H1. apply poll_ret. unfold pstep, stop_handler. rewrite Esq.
+  rewrite total_val by (sel; lia). sel. rewrite H1. reflexivity.
+Qed.
+
+(* what is dropped with the worker future: every queued connection is released (never called),
+   every other pending stop loses its ack sender (its receiver resolves) *)
+Lemma drop_obs_spec : forall s,
+  (forall x, In x (cq s) -> In (Released (snd x)) (drop_obs s))
+  /\ (forall x, In x (sq s) -> In (StopLost (snd x)) (drop_obs s))
+  /\ (forall dl st sid, ws s = WShutdown dl st sid -> In (StopLost sid) (drop_obs s)).
+Proof.
+  intros s. unfold drop_obs. repeat split.
+  - intros x Hx. apply in_or_app. left. apply in_map_iff. eauto.
+  - intros x Hx. apply in_or_app. right. apply in_or_app. left. apply in_map_iff. eauto.
+  - intros dl st sid E. apply in_or_app. right. apply in_or_app. right. rewrite E. now left.
+Qed.
+
+(* --- the send/inc gap: total() at counter 0 ------------------------------------------------ *)
+Theorem stop_in_gap_checked : forall c s g sid rest,
+  sq s = (g, sid) :: rest -> counter s = 0%Z -> c_ovf c = true ->
+  poll c s = (set_ws (set_sq s rest) WPanicked, [Panic POverflow]).
+Proof.
+  intros c s g sid rest Esq H0 Ho. apply poll_ret. unfold pstep, stop_handler. rewrite Esq.
+  unfold total. sel. rewrite H0, Ho. reflexivity.
+Qed.
+
+Theorem stop_in_gap_wrapping_forced : forall c s sid rest,
+  sq s = (false, sid) :: rest -> counter s = 0%Z -> c_ovf c = false ->
+  poll c s = (set_ws (set_svcs (set_sq s rest) (shutdown_svcs true (svcs s))) WDone,
+              StopAck sid false :: Done
+              :: drop_obs (set_svcs (set_sq s rest) (shutdown_svcs true (svcs s)))).
+Proof.
+  intros c s sid rest Esq H0 Ho. apply poll_ret. unfold pstep, stop_handler. rewrite Esq.
+  unfold total. sel. rewrite H0, Ho. reflexivity.
+Qed.
+
+(* --- graceful ----------------------------------------------------------------------------- *)
+Lemma drain_released : forall c q cnt cnt' o, drain c q cnt = (cnt', o) ->
+  forall x, In x q -> In (Released (snd x)) o.
+Proof.
+  induction q as [|[tok cid] t IH]; intros cnt cnt' o H x Hx; [contradiction|].
+  cbn [drain] in H. destruct (drain c t (cnt - 1)%Z) as [c2 o2] eqn:Ed. inv H.
+  destruct Hx as [<-|Hx]; [now left|]. right. apply in_or_app. right. eauto.
+Qed.
+
+Definition no_ack_done (o : list obs) : Prop :=
+  Forall (fun e => match e with StopAck _ _ | Done | Call _ _ | Panic _ => False | _ => True end) o.
+
+Lemma drain_quiet : forall c q cnt cnt' o, drain c q cnt = (cnt', o) -> no_ack_done o.
+Proof.
+  unfold no_ack_done. induction q as [|[tok cid] t IH]; intros cnt cnt' o H; cbn [drain] in H.
+  - inv H. constructor.
+  - destruct (drain c t (cnt - 1)%Z) as [c2 o2] eqn:Ed. inv H. constructor; [exact I|].
+    apply Forall_app2; eauto. unfold wake_obs. destruct (dec_wakes c cnt); repeat constructor.
+Qed.
+
+(* entering Shutdown: with n > 0 in flight a graceful stop is NOT acknowledged by this poll; the
+   1 s timer starts now, start_from = now, the queue is drained (released, never called) *)
+Theorem stop_graceful_enter : forall c s sid rest,
+  sq s = (true, sid) :: rest -> counter s <> 0%Z -> counter s <> 1%Z ->
+  exists o cnt,
+    drain c (cq s) (counter s) = (cnt, o) /\
+    poll c s = (set_counter (set_cq (set_ws (set_svcs (set_sq s rest) (shutdown_svcs false (svcs s)))
+                                            (WShutdown (now s + 1000) (now s) sid)) []) cnt,
+                (match ws s with WShutdown _ _ sid0 => [StopLost sid0] | _ => [] end) ++ o)
+    /\ no_ack_done o /\ (forall x, In x (cq s) -> In (Released (snd x)) o).
+Proof.
+  intros c s sid rest Esq H0 H1.
+  destruct (drain c (cq s) (counter s)) as [cnt o] eqn:Ed. exists o, cnt. split; auto.
+  split; [|split; [eapply drain_quiet; eauto|eapply drain_released; eauto]].
+  apply poll_ret. unfold pstep, stop_handler. rewrite Esq.
+  rewrite total_val by (sel; exact H0). sel.
+  destruct (counter s - 1 =? 0)%Z eqn:E; [apply Z.eqb_eq in E; lia|].
+  unfold state_step. sel. unfold shutdown_step. sel. rewrite Ed. sel.
+  destruct (now s <? now s + 1000)%Z eqn:En; [|apply Z.ltb_ge in En; lia].
+  reflexivity.
+Qed.
+
+(* in Shutdown with no new stop: a poll IS the shutdown step *)
+Lemma poll_shutdown : forall c s dl start sid,
+  ws s = WShutdown dl start sid -> sq s = [] ->
+  poll c s = shutdown_step c s dl start sid.
+Proof.
+  intros c s dl start sid Ew Esq.
+  destruct (shutdown_step c s dl start sid) as [s1 o] eqn:Es. apply poll_ret.
+  unfold pstep, stop_handler. rewrite Esq. unfold state_step. rewrite Ew, Es. reflexivity.
+Qed.
+
+(* before the tick: nothing is acknowledged, the queue is drained *)
+Theorem shutdown_before_tick : forall c s dl start sid,
+  ws s = WShutdown dl start sid -> sq s = [] -> (now s < dl)%Z ->
+  exists o cnt, drain c (cq s) (counter s) = (cnt, o) /\
+    poll c s = (set_counter (set_cq s []) cnt, o) /\ no_ack_done o
+    /\ (forall x, In x (cq s) -> In (Released (snd x)) o).
+Proof.
+  intros c s dl start sid Ew Esq Hn. rewrite (poll_shutdown c s dl start sid Ew Esq).
+  unfold shutdown_step. destruct (drain c (cq s) (counter s)) as [cnt o] eqn:Ed. sel.
+  apply Z.ltb_lt in Hn. rewrite Hn. exists o, cnt. repeat split; auto.
+  - eapply drain_quiet; eauto.
+  - eapply drain_released; eauto.
+Qed.
+
+(* at or after the tick, with `left` = counter after the drain:
+   left = 1 (idle)                          -> ack true, Done
+   left > 1 and now - start >= timeout      -> ack false, Done
+   left > 1 and now - start <  timeout      -> no ack, timer re-armed for now + 1 s *)
+Theorem shutdown_tick_idle : forall c s dl start sid,
+  ws s = WShutdown dl start sid -> sq s = [] -> (dl <= now s)%Z ->
+  (counter s - Z.of_nat (length (cq s)) = 1)%Z ->
+  exists o, In (StopAck sid true) o /\ In Done o /\ calls_of o = []
+    /\ (forall x, In x (cq s) -> In (Released (snd x)) o)
+    /\ ws (fst (poll c s)) = WDone /\ snd (poll c s) = o.
+Proof.
+  intros c s dl start sid Ew Esq Hn Hc. rewrite (poll_shutdown c s dl start sid Ew Esq).
+  unfold shutdown_step. destruct (drain c (cq s) (counter s)) as [cnt o] eqn:Ed. sel.
+  pose proof (drain_counter _ _ _ _ _ Ed) as Ec. pose proof (drain_released _ _ _ _ _ Ed) as Er.
+  pose proof (drain_basic _ _ _ _ _ Ed) as Eb.
+  apply Z.ltb_ge in Hn. rewrite Hn. rewrite total_val by (sel; lia). sel.
+  replace (cnt - 1 =? 0)%Z with true by (symmetry; apply Z.eqb_eq; lia).
+  eexists. cbn [finish fst snd]. repeat split; try reflexivity.
+  - apply in_or_app. left. apply in_or_app. right. now left.
+  - apply in_or_app. right. now left.
+  - apply calls_of_nocall. apply Forall_app2; [apply Forall_app2|].
+    + now apply basic_nocall.
+    + repeat constructor.
+    + constructor; [exact I|]. apply basic_nocall, drop_obs_basic.
+  - intros x Hx. apply in_or_app. left. apply in_or_app. left. auto.
+Qed.
+
+Theorem shutdown_tick_timeout : forall c s dl start sid,
+  ws s = WShutdown dl start sid -> sq s = [] -> (dl <= now s)%Z ->
+  (1 < counter s - Z.of_nat (length (cq s)))%Z -> (c_timeout c <= now s - start)%Z ->
+  exists o, In (StopAck sid false) o /\ In Done o /\ calls_of o = []
+    /\ (forall x, In x (cq s) -> In (Released (snd x)) o)
+    /\ ws (fst (poll c s)) = WDone /\ snd (poll c s) = o.
+Proof.
+  intros c s dl start sid Ew Esq Hn Hc Ht. rewrite (poll_shutdown c s dl start sid Ew Esq).
+  unfold shutdown_step. destruct (drain c (cq s) (counter s)) as [cnt o] eqn:Ed. sel.
+  pose proof (drain_counter _ _ _ _ _ Ed) as Ec. pose proof (drain_released _ _ _ _ _ Ed) as Er.
+  pose proof (drain_basic _ _ _ _ _ Ed) as Eb.
+  apply Z.ltb_ge in Hn. rewrite Hn. rewrite total_val by (sel; lia). sel.
+  replace (cnt - 1 =? 0)%Z with false by (symmetry; apply Z.eqb_neq; lia).
+  apply Z.leb_le in Ht. rewrite Ht.
+  eexists. cbn [finish fst snd]. repeat split; try reflexivity.
+  - apply in_or_app. left. apply in_or_app. right. now left.
+  - apply in_or_app. right. now left.
+  - apply calls_of_nocall. apply Forall_app2; [apply Forall_app2|].
+    + now apply basic_nocall.
+    + repeat constructor.
+    + constructor; [exact I|]. apply basic_nocall, drop_obs_basic.
+  - intros x Hx. apply in_or_app. left. apply in_or_app. left. auto.
+Qed.
+
+Theorem shutdown_tick_wait : forall c s dl start sid,
+  ws s = WShutdown dl start sid -> sq s = [] -> (dl <= now s)%Z ->
+  (1 < counter s - Z.of_nat (length (cq s)))%Z -> (now s - start < c_timeout c)%Z ->
+  exists o cnt, drain c (cq s) (counter s) = (cnt, o) /\
+    poll c s = (set_ws (set_counter (set_cq s []) cnt) (WShutdown (now s + 1000) start sid), o)
+    /\ no_ack_done o /\ (forall x, In x (cq s) -> In (Released (snd x)) o).
+Proof.
+  intros c s dl start sid Ew Esq Hn Hc Ht. rewrite (poll_shutdown c s dl start sid Ew Esq).
+  unfold shutdown_step. destruct (drain c (cq s) (counter s)) as [cnt o] eqn:Ed. sel.
+  pose proof (drain_counter _ _ _ _ _ Ed) as Ec.
+  apply Z.ltb_ge in Hn. rewrite Hn. rewrite total_val by (sel; lia). sel.
+  replace (cnt - 1 =? 0)%Z with false by (symmetry; apply Z.eqb_neq; lia).
+  replace (c_timeout c <=? now s - start)%Z with false by (symmetry; apply Z.leb_gt; lia).
+  exists o, cnt. repeat split; auto.
+  - eapply drain_quiet; eauto.
+  - eapply drain_released; eauto.
+Qed.
+
+(* --- every acknowledgement, in every poll, has one of the lawful causes -------------------- *)
+Definition ack_cond (c : cfg) (s : st) (sid : nat) (b : bool) : Prop :=
+  (exists g rest, sq s = (g, sid) :: rest /\
+     ((b = true /\ total c s = TVal 0) \/
+      (b = false /\ g = false /\ exists n, total c s = TVal n /\ n <> 0%Z)))
+  \/ (sq s = [] /\ exists dl start, ws s = WShutdown dl start sid /\ (dl <= now s)%Z /\
+      ((b = true /\ (counter s - Z.of_nat (length (cq s)) = 1)%Z) \/
+       (b = false /\ (counter s - Z.of_nat (length (cq s)) <> 1)%Z
+        /\ (c_timeout c <= now s - start)%Z))).
+
+Definition passive (e : obs) : Prop :=
+  match e with StopAck _ _ | Done => False | _ => True end.
+
+Lemma passive_noack : forall o, Forall passive o -> forall sid b, ~ In (StopAck sid b) o.
+Proof. intros o H sid b Hin. rewrite Forall_forall in H. apply (H _ Hin). Qed.
+
+Lemma passive_nodone : forall o, Forall passive o -> ~ In Done o.
+Proof. intros o H Hin. rewrite Forall_forall in H. apply (H _ Hin). Qed.
+
+Lemma pollready_passive : forall o, Forall is_pollready o -> Forall passive o.
+Proof. intros o H. eapply Forall_impl; [|exact H]. intros [] X; try contradiction; exact I. Qed.
+
+Lemma drop_obs_passive : forall s, Forall passive (drop_obs s).
+Proof.
+  intros s. unfold drop_obs. repeat apply Forall_app2.
+  - apply Forall_forall. intros e He. apply in_map_iff in He. destruct He as (x & <- & _). exact I.
+  - apply Forall_forall. intros e He. apply in_map_iff in He. destruct He as (x & <- & _). exact I.
+  - destruct (ws s); repeat constructor.
+Qed.
+
+Lemma drain_passive : forall c q cnt cnt' o, drain c q cnt = (cnt', o) -> Forall passive o.
+Proof.
+  intros. eapply Forall_impl; [|eapply drain_quiet; eauto]. intros []; cbn; tauto.
+Qed.
+
+(* a live state's step acknowledges nothing; it resolves only when the accept side is gone *)
+Lemma sstep_live_quiet : forall c s s1 o nx, SStep c s s1 o nx -> live s ->
+  (forall sid b, ~ In (StopAck sid b) o) /\ (In Done o -> cq_open s = false /\ nx = NRet).
+Proof.
+  intros c s s1 o nx H L. unfold live in L.
+  inv H;
+    try (match goal with X : check_ready _ _ = _ |- _ =>
+           pose proof (pollready_passive _ (check_ready_pollready _ _ _ _ _ X)) as PP end);
+    try (match goal with X : ws s = WShutdown _ _ _ |- _ => rewrite X in L; contradiction end).
+  all: try (split; [apply passive_noack|intros D; exfalso; revert D; apply passive_nodone]; auto;
+            try (apply Forall_app2; auto); repeat constructor; fail).
+  - (* A closed *) split.
+    + intros sid b Hin. apply in_app_or in Hin. destruct Hin as [Hin|[Hin|Hin]]; try discriminate.
+      * revert Hin. now apply passive_noack.
+      * revert Hin. apply passive_noack, drop_obs_passive.
+    + auto.
+Qed.
+
+Lemma shutdown_step_acks : forall c s dl start sid s1 o,
+  shutdown_step c s dl start sid = (s1, o) ->
+  (forall sid' b, In (StopAck sid' b) o ->
+     sid' = sid /\ (dl <= now s)%Z /\
+     ((b = true /\ (counter s - Z.of_nat (length (cq s)) = 1)%Z) \/
+      (b = false /\ (counter s - Z.of_nat (length (cq s)) <> 1)%Z /\ (c_timeout c <= now s - start)%Z)))
+  /\ (In Done o -> exists b, In (StopAck sid b) o).
+Proof.
+  intros c s dl start sid s1 o H. unfold shutdown_step in H.
+  destruct (drain c (cq s) (counter s)) as [cnt o1] eqn:Ed.
+  pose proof (drain_counter _ _ _ _ _ Ed) as Ec. pose proof (drain_passive _ _ _ _ _ Ed) as Pp.
+  sel. destruct (now s <? dl)%Z eqn:En.
+  { inv H. split; [intros ? ? X; exfalso; revert X; now apply passive_noack|].
+    intros X; exfalso; revert X; now apply passive_nodone. }
+  apply Z.ltb_ge in En. unfold total in H. sel.
+  assert (K : forall b, (b = true /\ (cnt = 1)%Z) \/ (b = false /\ (cnt <> 1)%Z /\ (c_timeout c <= now s - start)%Z) ->
+     (forall sid' b', In (StopAck sid' b') ((o1 ++ [StopAck sid b]) ++ Done :: drop_obs (set_ws (set_counter (set_cq s []) cnt) WUnavailable)) ->
+        sid' = sid /\ (dl <= now s)%Z /\
+        ((b' = true /\ (cnt = 1)%Z) \/ (b' = false /\ (cnt <> 1)%Z /\ (c_timeout c <= now s - start)%Z)))
+     /\ (In Done ((o1 ++ [StopAck sid b]) ++ Done :: drop_obs (set_ws (set_counter (set_cq s []) cnt) WUnavailable)) ->
+         exists b0, In (StopAck sid b0) ((o1 ++ [StopAck sid b]) ++ Done :: drop_obs (set_ws (set_counter (set_cq s []) cnt) WUnavailable)))).
+  { intros b Hb. split.
+    - intros sid' b' Hin. apply in_app_or in Hin. destruct Hin as [Hin|[Hin|Hin]]; try discriminate.
+      + apply in_app_or in Hin. destruct Hin as [Hin|[Hin|[]]].
+        * exfalso. revert Hin. now apply passive_noack.
+        * inv Hin. auto.
+      + exfalso. revert Hin. apply passive_noack, drop_obs_passive.
+    - intros _. exists b. apply in_or_app. left. apply in_or_app. right. now left. }
+  rewrite <- Ec.
+  destruct (cnt =? 0)%Z eqn:E0.
+  - apply Z.eqb_eq in E0. destruct (c_ovf c).
+    + inv H. split; [intros sid' b X|intros X]; exfalso; apply in_app_or in X;
+        destruct X as [X|[X|[]]]; try discriminate; revert X;
+        [now apply passive_noack|now apply passive_nodone].
+    + cbn in H. destruct (c_timeout c <=? now s - start)%Z eqn:Et.
+      * inv H. apply K. right. apply Z.leb_le in Et. repeat split; auto. lia.
+      * inv H. split; [intros sid' b X|intros X]; exfalso; revert X;
+          [now apply passive_noack|now apply passive_nodone].
+  - apply Z.eqb_neq in E0. destruct (cnt - 1 =? 0)%Z eqn:E1.
+    + apply Z.eqb_eq in E1. inv H. apply K. left. split; auto. lia.
+    + apply Z.eqb_neq in E1. destruct (c_timeout c <=? now s - start)%Z eqn:Et.
+      * inv H. apply K. right. apply Z.leb_le in Et. repeat split; auto. lia.
+      * inv H. split; [intros sid' b X|intros X]; exfalso; revert X;
+          [now apply passive_noack|now apply passive_nodone].
+Qed.
+
+Lemma total_set_sq : forall c s x, total c (set_sq s x) = total c s.
+Proof. reflexivity. Qed.
+
+Lemma stoph_acks : forall c s s0 o0 b, StopH c s s0 o0 b ->
+  (forall sid bb, In (StopAck sid bb) o0 -> ack_cond c s sid bb)
+  /\ (In Done o0 -> exists sid bb, In (StopAck sid bb) o0).
+Proof.
+  intros c s s0 o0 b H. inv H.
+  - split; [intros ? ? []|intros []].
+  - split; [intros ? ? [X|[]]; discriminate|intros [X|[]]; discriminate].
+  - split.
+    + intros sid' bb [X|[X|X]]; try discriminate.
+      * inv X. left. exists g, rest. split; auto.
+      * exfalso. revert X. apply passive_noack, drop_obs_passive.
+    + intros _. exists sid, true. now left.
+  - split.
+    + intros sid' bb X. exfalso. destruct (ws s); cbn in X; intuition discriminate.
+    + intros X. exfalso. destruct (ws s); cbn in X; intuition discriminate.
+  - split.
+    + intros sid' bb [X|[X|X]]; try discriminate.
+      * inv X. left. exists false, rest. split; auto. right. repeat split; auto. exists n. auto.
+      * exfalso. revert X. apply passive_noack, drop_obs_passive.
+    + intros _. exists sid, false. now left.
+Qed.
+
+Lemma poll_ack_done : forall c s, Inv c s -> finished s = false ->
+  (forall sid b, In (StopAck sid b) (snd (poll c s)) -> ack_cond c s sid b)
+  /\ (In Done (snd (poll c s)) ->
+      (exists sid b, In (StopAck sid b) (snd (poll c s))) \/ cq_open s = false).
+Proof.
+  intros c s I0 F.
+  assert (K : (true = false -> live s /\ sq s = []) ->
+    (forall sid b, In (StopAck sid b) (snd (poll c s)) -> ack_cond c s sid b)
+    /\ (In Done (snd (poll c s)) ->
+        (exists sid b, In (StopAck sid b) (snd (poll c s))) \/ cq_open s = false)).
+  2:{ apply K. discriminate. }
+  apply (poll_ind c (fun top s _ o => (top = false -> live s /\ sq s = []) ->
+    (forall sid b, In (StopAck sid b) o -> ack_cond c s sid b)
+    /\ (In Done o -> (exists sid b, In (StopAck sid b) o) \/ cq_open s = false))); auto.
+  - intros top s0 s1 o I1 F1 Hp HL. apply pstep_cases in Hp.
+    assert (SS : forall o1, SStep c s0 s1 o1 NRet -> sq s0 = [] ->
+              (forall sid b, In (StopAck sid b) o1 -> ack_cond c s0 sid b)
+              /\ (In Done o1 -> (exists sid b, In (StopAck sid b) o1) \/ cq_open s0 = false)).
+    { intros o1 H1 Esq. destruct (live_dec s0) as [L|NL].
+      - destruct (sstep_live_quiet _ _ _ _ _ H1 L) as [Q1 Q2]. split.
+        + intros sid b X. exfalso. eapply Q1; eauto.
+        + intros X. right. now apply Q2.
+      - unfold live in NL. inv H1; try (rewrite H in NL; exfalso; apply NL; exact I).
+        + destruct (shutdown_step_acks _ _ _ _ _ _ _ H0) as [A1 A2]. split.
+          * intros sid' b X. destruct (A1 _ _ X) as (-> & Hd & Hc). right. split; auto.
+            exists dl, start. auto.
+          * intros X. left. destruct (A2 X) as [b Hb]. eauto.
+        + split; [intros ? ? []|intros []]. }
+    destruct Hp as [[-> H]|[-> (sa & oa & b & HS & H)]].
+    + (* inside the Available loop: the state is live *)
+      destruct (HL eq_refl) as [L _]. destruct (sstep_live_quiet _ _ _ _ _ H L) as [Q1 Q2]. split.
+      * intros sid b X. exfalso. eapply Q1; eauto.
+      * intros X. right. now apply Q2.
+    + destruct (stoph_acks _ _ _ _ _ HS) as [A1 A2].
+      destruct H as [(-> & -> & -> & _)|(-> & o1 & H1 & ->)].
+      * split; [exact A1|intros X; left; exact (A2 X)].
+      * inv HS.
+        -- cbn [app]. auto.
+        -- (* a graceful stop was just accepted: the fresh timer cannot have fired *)
+           inv H1; sel; try discriminate.
+           match goal with X : WShutdown _ _ _ = WShutdown _ _ _ |- _ => inv X end.
+           match goal with X : shutdown_step _ _ _ _ _ = _ |- _ =>
+             destruct (shutdown_step_acks _ _ _ _ _ _ _ X) as [B1 B2] end. sel.
+           assert (NA : forall sid' b, ~ In (StopAck sid' b) o1).
+           { intros sid' b X. destruct (B1 _ _ X) as (_ & Hd & _). lia. }
+           split.
+           ++ intros sid' b X. apply in_app_or in X. destruct X as [X|X].
+              ** exfalso. destruct (ws s0); cbn in X; intuition discriminate.
+              ** exfalso. eapply NA; eauto.
+           ++ intros X. apply in_app_or in X. destruct X as [X|X].
+              ** exfalso. destruct (ws s0); cbn in X; intuition discriminate.
+              ** destruct (B2 X) as [b Hb]. exfalso. eapply NA; eauto.
+  - intros top s0 s1 o1 nx s2 o2 I1 L1 Hsq1 HS Hn I2 L2 Hsq2 IH HL.
+    destruct (sstep_live_quiet _ _ _ _ _ HS L1) as [Q1 Q2].
+    assert (Esq0 : sq s0 = []). { destruct top; auto. now apply HL. }
+    assert (Esq1 : sq s1 = []) by congruence.
+    destruct (IH (fun _ => conj L2 Esq1)) as [IH1 IH2]. split.
+    + intros sid b X. apply in_app_or in X. destruct X as [X|X]; [exfalso; eapply Q1; eauto|].
+      exfalso. destruct (IH1 _ _ X) as [(g & rest & E & _)|(_ & dl & start & E & _)].
+      * congruence.
+      * unfold live in L2. rewrite E in L2. exact L2.
+    + intros X. apply in_app_or in X. destruct X as [X|X].
+      * destruct (Q2 X) as [_ Y]. congruence.
+      * destruct (IH2 X) as [(sid & b & Y)|Y].
+        -- left. exists sid, b. apply in_or_app. auto.
+        -- right. erewrite <- sstep_open; eauto.
+Qed.
+
+(* an acknowledgement `true` means: nothing in flight (up to the one connection of the
+   send/inc gap); `false` means a forced stop or an elapsed shutdown_timeout *)
+Theorem ack_true_means_idle : forall c s sid, Inv c s -> finished s = false ->
+  In (StopAck sid true) (snd (poll c s)) ->
+  (Z.of_nat (length (inprog s)) <= (if gap s then 1 else 0))%Z
+  /\ (gap s = false -> inprog s = []).
+Proof.
+  intros c s sid I0 F H. destruct (poll_ack_done c s I0 F) as [A _]. apply A in H.
+  destruct I0 as [_ _ C]. specialize (C F).
+  assert (K : (Z.of_nat (length (inprog s)) <= (if gap s then 1 else 0))%Z).
+  { destruct H as [(g & rest & E & [[_ T]|[X _]])|(_ & dl & start & E & _ & [[_ T]|[X _]])];
+      try discriminate.
+    - unfold total in T. destruct (counter s =? 0)%Z eqn:E0.
+      + destruct (c_ovf c); [discriminate|]. inv T.
+      + inv T. destruct (gap s); lia.
+    - destruct (gap s); lia. }
+  split; auto. intros G. rewrite G in K. destruct (inprog s); auto. cbn [length] in K. lia.
+Qed.
+
+Theorem ack_false_means_forced_or_timeout : forall c s sid, Inv c s -> finished s = false ->
+  In (StopAck sid false) (snd (poll c s)) ->
+  (exists rest, sq s = (false, sid) :: rest)
+  \/ (exists dl start, ws s = WShutdown dl start sid /\ (c_timeout c <= now s - start)%Z).
+Proof.
+  intros c s sid I0 F H. destruct (poll_ack_done c s I0 F) as [A _]. apply A in H.
+  destruct H as [(g & rest & E & [[X _]|(_ & -> & _)])|(_ & dl & start & E & _ & [[X _]|(_ & _ & T)])];
+    try discriminate; eauto.
+Qed.
+
+(* the worker future resolves only with an acknowledgement, or because the accept side is gone *)
+Theorem done_means_ack_or_closed : forall c s, Inv c s -> finished s = false ->
+  In Done (snd (poll c s)) ->
+  (exists sid b, In (StopAck sid b) (snd (poll c s))) \/ cq_open s = false.
+Proof. intros c s I0 F. apply (poll_ack_done c s I0 F). Qed.
+
+(* C06_drain, run level: once the worker has left the serving states no service is ever called *)
+Theorem no_call_after_shutdown : forall c ops s, Inv c s -> ~ live s ->
+  calls_of (concat (run c s ops)) = [].
+Proof. intros c ops s I0 NL. now apply (run_fifo c ops s I0). Qed.
